@@ -223,6 +223,61 @@ pub fn generate(seed: u64, n: usize, _thorough: bool) -> Cases {
                     json!({"kind": "mismatched_arg_count", "source": src, "reported": reported, "nontrivial": true}),
                 );
             }
+            7 => {
+                // (4) bad_string_escape: the scan of a quoted literal
+                const PIECES: [&str; 30] = ["\\a", "\\n", "\\z", "\\x", "\\x4", "\\x41", "\\xZ", "\\u", "\\u{", "\\u{41}", "\\u{110000}", "\\u{00000041}",
+                    "\\u{1234", "\\0", "\\12", "\\255", "\\256", "\\300", "\\9ff", "\\m", "\\\u{e9}", "\\\u{0663}", "\\\\", "}", "ab", "\u{e9}", "7f", "\u{0663}", "\\q}", " "];
+                let double = r.chance(1, 2);
+                let roblox = r.chance(1, 2);
+                let mut lit = String::new();
+                for _ in 0..r.range(1, 6) {
+                    lit.push_str(*r.pick(&PIECES));
+                }
+                if r.chance(1, 3) {
+                    lit.push_str(if double { "\\'" } else { "\\\"" });
+                }
+                if r.chance(1, 4) {
+                    lit.push_str(if double { "\\\"" } else { "\\'" });
+                }
+                let q = if double { '"' } else { '\'' };
+                let src = format!("local s = {q}{lit}{q}\nprint(s)\n");
+                let version = if roblox { full_moon::LuaVersion::luau() } else { full_moon::LuaVersion::lua51() };
+                let ast = match full_moon::parse_fallible(&src, version).into_result() {
+                    Ok(a) => a,
+                    Err(_) => continue,
+                };
+                let lib = if roblox { StandardLibrary::roblox_base() } else { StandardLibrary::from_name("lua51").unwrap() };
+                let ds = catch_unwind(AssertUnwindSafe(|| {
+                    let checker: Checker<toml::value::Value> = Checker::new(CheckerConfig::default(), lib).unwrap();
+                    checker
+                        .test_on(&ast)
+                        .into_iter()
+                        .filter(|d| d.diagnostic.code == "bad_string_escape")
+                        .map(|d| d.diagnostic.primary_label.range)
+                        .collect::<Vec<_>>()
+                }));
+                let ds = match ds {
+                    Ok(d) => d,
+                    Err(_) => {
+                        cases.push("CEscapePanic".to_string(), json!({"kind": "bad_string_escape-panic", "source": src, "nontrivial": true}));
+                        i += 1;
+                        continue;
+                    }
+                };
+                let base = "local s = ".len() as u32 + 1;
+                let mut rel: Vec<(u32, u32)> = ds.iter().map(|(a, b)| (a.wrapping_sub(base), b.wrapping_sub(base))).collect();
+                rel.sort();
+                cases.push(
+                    format!(
+                        "CEscape {} {} [{}]%N {}",
+                        if double { "QDouble" } else { "QSingle" },
+                        gbool(roblox),
+                        lit.bytes().map(|b| b.to_string()).collect::<Vec<_>>().join(";"),
+                        glist(rel.iter(), |(a, b)| format!("({}%nat, {}%nat)", a, b))
+                    ),
+                    json!({"kind": "bad_string_escape", "source": src, "roblox": roblox, "ranges": rel, "nontrivial": true}),
+                );
+            }
             _ => {
                 // (3) template verdicts
                 let (lint, positive, snippet) = *r.pick(&TEMPLATES);
